@@ -20,6 +20,9 @@ type Solver struct {
 	in        io.WriteCloser
 	out       *bufio.Reader
 	defined   map[int]bool
+	defLevel  map[int]int // term id -> push level at which it was declared/defined
+	levelDefs [][]int     // ids defined at each push level (index = level)
+	stack     []*Term     // assertion at each push level (level i+1 holds stack[i])
 	Queries   int
 	Sat       int
 	Unsat     int
@@ -53,6 +56,9 @@ func (s *Solver) start() {
 	}
 	s.cmd, s.in, s.out = cmd, in, bufio.NewReaderSize(o, 1<<20)
 	s.defined = map[int]bool{}
+	s.defLevel = map[int]int{}
+	s.levelDefs = [][]int{nil}
+	s.stack = nil
 	s.lastSat = false
 	s.nDefs = 0
 	if p := os.Getenv("VF_SMTLOG"); p != "" && s.log == nil {
@@ -89,7 +95,7 @@ func (s *Solver) send(x string) {
 	io.WriteString(s.in, x+"\n")
 }
 
-func (s *Solver) define(t *Term) {
+func (s *Solver) define(t *Term, lv int) {
 	if s.defined[t.id] {
 		return
 	}
@@ -115,6 +121,11 @@ func (s *Solver) define(t *Term) {
 		}
 		x := top.t
 		s.defined[x.id] = true
+		s.defLevel[x.id] = lv
+		for len(s.levelDefs) <= lv {
+			s.levelDefs = append(s.levelDefs, nil)
+		}
+		s.levelDefs[lv] = append(s.levelDefs[lv], x.id)
 		s.nDefs++
 		switch x.Op {
 		case "const", "true", "false":
@@ -128,23 +139,58 @@ func (s *Solver) define(t *Term) {
 }
 
 // Check returns "sat", "unsat" or "unknown" (timeouts and solver errors are "unknown").
+// The assertion list is kept on the solver's push/pop stack: consecutive queries that share a prefix
+// (the path condition of a depth-first exploration) only send what changed.
 func (s *Solver) Check(assertions ...*Term) string {
 	t0 := time.Now()
-	if s.lastSat {
-		s.send("(pop 1)")
-		s.lastSat = false
-	}
-	if s.nDefs > 400000 {
+	s.lastSat = false
+	if s.nDefs > 2000000 {
 		s.Restart()
 	}
+	var as []*Term
 	for _, a := range assertions {
-		s.define(a)
-	}
-	s.send("(push 1)")
-	for _, a := range assertions {
-		if a == True {
-			continue
+		if a != True {
+			as = append(as, a)
 		}
+	}
+	common := 0
+	for common < len(s.stack) && common < len(as) && s.stack[common] == as[common] {
+		common++
+	}
+	if k := len(s.stack) - common; k > 0 {
+		s.send(fmt.Sprintf("(pop %d)", k))
+		s.stack = s.stack[:common]
+		for lv := common + 1; lv < len(s.levelDefs); lv++ {
+			for _, id := range s.levelDefs[lv] {
+				delete(s.defLevel, id)
+				delete(s.defined, id)
+			}
+			s.levelDefs[lv] = s.levelDefs[lv][:0]
+		}
+	}
+	// large new terms (goals, reference renderings) are defined once at level 0, where they persist;
+	// small increments (branch conditions) are defined inside the stack
+	if n := s.countUndefined(as[common:], 300); n >= 300 {
+		if len(s.stack) > 0 {
+			s.send(fmt.Sprintf("(pop %d)", len(s.stack)))
+			s.stack = s.stack[:0]
+			for lv := 1; lv < len(s.levelDefs); lv++ {
+				for _, id := range s.levelDefs[lv] {
+					delete(s.defLevel, id)
+					delete(s.defined, id)
+				}
+				s.levelDefs[lv] = s.levelDefs[lv][:0]
+			}
+		}
+		common = 0
+		for _, a := range as {
+			s.define(a, 0)
+		}
+	}
+	for _, a := range as[common:] {
+		s.send("(push 1)")
+		s.define(a, len(s.stack)+1)
+		s.stack = append(s.stack, a)
 		s.send("(assert " + ref(a) + ")")
 	}
 	s.send("(check-sat)")
@@ -171,7 +217,6 @@ func (s *Solver) Check(assertions ...*Term) string {
 			s.Errors++
 			fmt.Fprintln(os.Stderr, "SOLVER ERROR:", line)
 			r = "unknown"
-			// keep reading until the check-sat answer arrives
 			continue
 		}
 	}
@@ -185,9 +230,6 @@ func (s *Solver) Check(assertions ...*Term) string {
 		s.Unknown++
 	}
 	s.lastSat = r == "sat"
-	if !s.lastSat {
-		s.send("(pop 1)")
-	}
 	d := time.Since(t0)
 	s.Time += d
 	if d > s.MaxQuery {
@@ -196,12 +238,28 @@ func (s *Solver) Check(assertions ...*Term) string {
 	return r
 }
 
+// countUndefined counts terms reachable from ts that are not defined yet (stops at limit).
+func (s *Solver) countUndefined(ts []*Term, limit int) int {
+	seen := map[int]bool{}
+	n := 0
+	var st []*Term
+	st = append(st, ts...)
+	for len(st) > 0 && n < limit {
+		t := st[len(st)-1]
+		st = st[:len(st)-1]
+		if seen[t.id] || s.defined[t.id] {
+			continue
+		}
+		seen[t.id] = true
+		n++
+		st = append(st, t.Args...)
+	}
+	return n
+}
+
 // Done releases the model of the last sat answer.
 func (s *Solver) Done() {
-	if s.lastSat {
-		s.send("(pop 1)")
-		s.lastSat = false
-	}
+	s.lastSat = false
 }
 
 // Value evaluates a bit-vector or Bool term in the current model (after a sat answer, before Done).
